@@ -72,6 +72,16 @@ def build_templates(seed, n_rand, n_pert_each):
     base.append({"name": "falls_off_end", "role": "dropped ret: function with a declared return type can fall off its end", "dom": {"a": (0, 3)}, "text": FALLS_OFF})
     for n, body in BLOB_MIX.items():
         base.append({"name": "blob_mix_" + n, "role": "structurally different blobs meet (%s)" % n, "dom": {"a": (0, 3)}, "text": BLOB_HEAD + body})
+    # un-annotated parameters: the operator constraint has to survive until the call that instantiates the parameter
+    for op in ("<", ">", "<=", ">=", "+", "-", "*"):
+        for side in ("const_left", "const_right"):
+            for bad in ('"s"', "true", "(1, 2)"):
+                if bad == "(1, 2)" and op in ("+", "-", "*"): e_ok = "(3, 4)"
+                else: e_ok = "2"
+                expr = ("%s %s x" % (e_ok, op)) if side == "const_left" else ("x %s %s" % (op, e_ok))
+                for use in ("print(%s)", "y := %s\n    print(1)"):
+                    body = "g :: fn x do\n    " + (use % expr) + "\nend\nstart :: fn do\n    g(%s)\n    g(%s)\nend\n" % ("?a" if e_ok == "2" else "(?a, 1)", bad)
+                    base.append({"name": "generic_%s_%s_%s_%d" % ({"<": "lt", ">": "gt", "<=": "le", ">=": "ge", "+": "add", "-": "sub", "*": "mul"}[op], side, bad.strip('"(), ').replace(", ", ""), use.startswith("y")), "role": "operator constraint on an un-annotated parameter (%s, %s)" % (op, side), "dom": {"a": (0, 3)}, "text": body})
     for t in base:
         t = dict(t); t["name"] = "base_" + t["name"]; out.append(t)
     for t in base:
